@@ -5,7 +5,7 @@
    ALL scripts, including every sweep-order oracle carried by the labels.
    Window arithmetic is in Z (no uint32/int overflow). *)
 From Coq Require Import List NArith ZArith Bool.
-From Martian.H2 Require Import Model Spec Proofs_act Proofs_props Proofs_oracle Proofs_misc Proofs_final.
+From Martian.H2 Require Import Model Spec Proofs_act Proofs_props Proofs_oracle Proofs_misc Proofs_final Proofs_audit.
 Import ListNotations.
 Open Scope Z_scope.
 
@@ -51,6 +51,30 @@ Theorem C09_header_fragments_fit : forall maxf hp ip elen cs,
   (5 <= maxf)%N -> hdr_chunks maxf hp ip elen = Some cs -> chunks_fit maxf hp ip cs = true.
 Proof. exact hdr_chunks_fit. Qed.
 Print Assumptions C09_header_fragments_fit.
+
+(* the chunking loop terminates for every block and conserves it *)
+Theorem C09_header_chunking_total : forall maxf hp ip elen,
+  (5 <= maxf)%N -> exists cs, hdr_chunks maxf hp ip elen = Some cs /\ nsum cs = elen.
+Proof. exact hdr_chunks_total. Qed.
+Print Assumptions C09_header_chunking_total.
+
+(* the DATA splitting loop terminates whenever the receiver's max frame size is positive *)
+Theorem C09_data_split_total : forall fuel maxf s es d,
+  (0 < maxf)%N -> (length d < fuel)%nat -> split_data fuel maxf s es d <> None.
+Proof. exact split_data_total. Qed.
+
+Example C09_header_fragments_example :
+  hdr_chunks 16384 true false 40000 = Some [16379; 16384; 7237]%N
+  /\ hdr_chunks 16384 false true 16380 = Some [16380]%N /\ hdr_chunks 16384 false true 16381 = Some [16380; 1]%N.
+Proof. vm_compute. repeat split; reflexivity. Qed.
+
+Example C09_frame_size_partial_example :
+  exists f' acts q, front f0 Cl (FData 1 true (bytes_n 5) (Some 2%N)) = Some (f', acts)
+    /\ In (AEnq Sv q) acts /\ fc q = 5 /\ In (ACredit Cl 1 8) acts.
+Proof.
+  eexists. eexists. eexists. vm_compute.
+  split; [reflexivity|]. split; [right; right; left; reflexivity|]. split; [reflexivity|right; left; reflexivity].
+Qed.
 
 (* for the reader: credit smaller than the next frame moves nothing (frames are never split to fit) *)
 Theorem C09_byte_granular_refuted :
